@@ -31,6 +31,12 @@ func c15Alphabet() []string {
 
 // c15Exec runs one sequence on a real transport with ndest destinations.
 func c15Exec(ndest int, alphabet []string) func(hist []int) (string, string, string, int) {
+	// ndest < 0: two destinations of which the first is listed twice (A, B, A): every entry of the list is a
+	// destination of its own, so A receives every message twice - as two datagrams - and B once
+	dup := ndest < 0
+	if dup {
+		ndest = 2
+	}
 	return func(hist []int) (cl, det, key string, steps int) {
 		var sinks []*fastSink
 		for i := 0; i < ndest; i++ {
@@ -53,6 +59,9 @@ func c15Exec(ndest int, alphabet []string) func(hist []int) (string, string, str
 				var addrs []string
 				for _, s := range sinks {
 					addrs = append(addrs, s.addr)
+				}
+				if dup {
+					addrs = append(addrs, sinks[0].addr)
 				}
 				tr, err = thriftudp.NewTMultiUDPClientTransport(addrs, "")
 			}
@@ -121,6 +130,9 @@ func c15Exec(ndest int, alphabet []string) func(hist []int) (string, string, str
 						if !sockClosed {
 							for d := range want {
 								want[d] = append(want[d], append([]byte{}, buf...))
+								if dup && d == 0 {
+									want[d] = append(want[d], append([]byte{}, buf...))
+								}
 							}
 						}
 						buf = buf[:0] // the buffer is empty after any Flush, successful or not
@@ -155,7 +167,7 @@ func c15Exec(ndest int, alphabet []string) func(hist []int) (string, string, str
 			if refused > 2 {
 				refused = 2
 			}
-			key = fmt.Sprint(ndest, len(buf), closed, sockClosed, len(want[0]), refused, refusedOps)
+			key = fmt.Sprint(ndest, dup, len(buf), closed, sockClosed, len(want[0]), refused, refusedOps)
 			return "", ""
 		})
 		return
@@ -187,6 +199,15 @@ func c15Jobs(tier string) []*SeqJob {
 		j.Run = func(ctx *SeqCtx) { bfs(ctx, alphabet, d, c15Exec(nd, alphabet)) }
 		j.Replay = func(ops []string) (string, string) {
 			c, dd, _, _ := c15Exec(nd, alphabet)(opIndex(alphabet, ops))
+			return c, dd
+		}
+		jobs = append(jobs, j)
+	}
+	{
+		j := &SeqJob{Property: "C15", Name: "transport-sequences-a-destination-listed-twice", Shards: tierInt(tier, 2, 5)}
+		j.Run = func(ctx *SeqCtx) { bfs(ctx, alphabet, depth-1, c15Exec(-3, alphabet)) }
+		j.Replay = func(ops []string) (string, string) {
+			c, dd, _, _ := c15Exec(-3, alphabet)(opIndex(alphabet, ops))
 			return c, dd
 		}
 		jobs = append(jobs, j)
